@@ -272,6 +272,8 @@ op('rowgroupmap', ['g'], lambda t: etl.rowgroupmap(t, 'k', _groupmapper, header=
 op('unpack', ['l'], lambda t: etl.unpack(t, 'v', ['v1', 'v2']), S0)
 op('unpack(int,orig)', ['l'], lambda t: etl.unpack(t, 'v', 3, include_original=True), S0)
 op('unpackdict(keys)', ['d'], lambda t: etl.unpackdict(t, 'v', keys=['p', 'q']), S0)
+op('unpackdict(sample1)', ['d'], lambda t: etl.unpackdict(t, 'v', samplesize=1), ('stream:0', 'passall', 'hdrdep'))
+op('unpackdict(sample0)', ['d'], lambda t: etl.unpackdict(t, 'v', samplesize=0), ('stream:0', 'passall', 'hdrdep'))
 op('unpackdict(sample)', ['d'], lambda t: etl.unpackdict(t, 'v', samplesize=2), ('stream:0', 'passall', 'hdrdep'))
 # ---- reshape -------------------------------------------------------------------------------
 op('melt(key)', ['g'], lambda t: etl.melt(t, 'k'), ('stream:0', 'passall', 'expand'))
